@@ -65,10 +65,10 @@ require (
 	github.com/phoreproject/bls v0.0.0-20200525203911-a88a5ae26844 // indirect
 	github.com/pkg/errors v0.9.1 // indirect
 	github.com/pmezard/go-difflib v1.0.0 // indirect
-	github.com/polynetwork/ripple-sdk v0.0.0-20220424031403-3947f2e7636c // indirect
+	github.com/polynetwork/ripple-sdk v0.0.0-20220424031403-3947f2e7636c
 	github.com/prometheus/tsdb v0.7.1 // indirect
 	github.com/renlulu/gozilliqa-sdklegacy v0.0.0-20220127085552-852a2675dc93
-	github.com/rubblelabs/ripple v0.0.0-20220222071018-38c1a8b14c18 // indirect
+	github.com/rubblelabs/ripple v0.0.0-20220222071018-38c1a8b14c18
 	github.com/shirou/gopsutil v2.20.5-0.20200531151128-663af789c085+incompatible // indirect
 	github.com/starcoinorg/starcoin-go v0.0.0-20220803022851-4369901a66d0
 	github.com/steakknife/bloomfilter v0.0.0-20180922174646-6819c0d2a570 // indirect
